@@ -54,6 +54,7 @@ def one_case(rng, tier):
         if rng.random() < 0.12:
             T = 0               # legal boundary: flush a partial partition at once (next loop turn)
         nodes.append({'id': 'tw', 'op': 'partition', 'ups': [last], 'n': rng.choice([1, 2, 2, 3, 4]), 'timeout': T,
+                      'timeout_np': rng.choice([None, None, None, None, 'float64', 'float32'] + (['int64'] if T == int(T) and T > 0 else [])),
                       'key': rng.choice([None, None, 'mod2', 'mod3', 'ident'])})
     last = 'tw'
     if rng.random() < 0.4:
